@@ -18,6 +18,11 @@ TRUSTED_BASE = [
     "md-5, crc (beyond the lengths checked against the bitwise spec), nom, crossbeam: external crates, not verified",
     "overlay O4: under cfg(kani) `reusable!` storage is a fresh (or havocked) local instead of a thread_local",
     "verified build configuration: stable fakesimd build, features default+decode, x86-64 little endian",
+    "overlay O6 (only in builds containing the source_md5.rs units): md-5 replaced by a recording stand-in; assumed: the digest is a function of exactly the bytes fed",
+    "A-nom: bit-level meaning of nom's take / tag / verify / Offset assumed in the Verus parser units (parser_residual, parser_residual_inverse, parser_frame, parser_subframes)",
+    "A-macro: try_repeat! / repeat! replaced by their loop semantics in Verus units (proved of the macro by Kani units c08_try_repeat_semantics, c13_repeat_semantics)",
+    "A-panic-pre: callee contracts carry a callee's panic conditions only where a unit established them (listed per unit under callee_contracts_used)",
+    "Verus extraction: the stated substitutions of DESIGN.md 3/4.4 (recorded per unit under extraction.substitutions); external_body wrappers whose body is literally the std call",
 ]
 
 
